@@ -679,6 +679,144 @@ class Fn:
         return f"Definition {nm} {' '.join(params)} :=\n  {body}."
 
 
+class DispatchFn(Fn):
+    """A method whose result is chosen by the dynamic type of ONE argument (`if v is None:` / `if isinstance(v, T):`
+    tests, in order).  The argument becomes a Gallina sum type; the function body is translated once per constructor
+    with every type test on the argument decided statically from the constructor's Python classes (so the ORDER of the
+    tests is kept: a bool is also an int), giving `Fixpoint f .. (v : T) {struct v} := match v with | C .. => .. end`.
+    cfg["dispatch"] = {"arg": name, "type": coq type, "ctors": [{"ctor", "classes": [dotted names as written in the source],
+    "is_none": bool, "payload": tag | None, "attrs": {attr: tag}}]}.  Tags: str bool Z float pyval pylist other.
+    Everything not enumerated here is UNSUPPORTED."""
+
+    def static_test(self, test):
+        d = self.cfg["dispatch"]
+        c = self.ctor
+        if isinstance(test, ast.Compare) and len(test.ops) == 1 and isinstance(test.left, ast.Name) and test.left.id == d["arg"] \
+                and isinstance(test.comparators[0], ast.Constant) and test.comparators[0].value is None:
+            if isinstance(test.ops[0], ast.Is):
+                return bool(c.get("is_none"))
+            if isinstance(test.ops[0], ast.IsNot):
+                return not c.get("is_none")
+            return None
+        if isinstance(test, ast.Call) and self.dotted(test.func) == "isinstance" and len(test.args) == 2 and not test.keywords \
+                and isinstance(test.args[0], ast.Name) and test.args[0].id == d["arg"]:
+            cls = self.dotted(test.args[1])
+            if cls is None:
+                return None
+            known = set()
+            for cc in d["ctors"]:
+                known.update(cc["classes"])
+            if cls not in known:
+                raise Unsupported(test, f"isinstance against a class outside the dispatch table: {cls}")
+            return cls in c["classes"]
+        if isinstance(test, ast.BoolOp):
+            vals = [self.static_test(v) for v in test.values]
+            if any(v is None for v in vals):
+                return None
+            return any(vals) if isinstance(test.op, ast.Or) else all(vals)
+        if isinstance(test, ast.UnaryOp) and isinstance(test.op, ast.Not):
+            v = self.static_test(test.operand)
+            return None if v is None else (not v)
+        return None
+
+    def if_stmt(self, s, env, rest, final):
+        v = self.static_test(s.test)
+        if v is True:
+            return self.block(s.body + rest, env, final)
+        if v is False:
+            return self.block(s.orelse + rest, env, final)
+        return super().if_stmt(s, env, rest, final)
+
+    def e_Name(self, e, env):
+        d = self.cfg["dispatch"]
+        if e.id == d["arg"]:
+            tag = self.ctor.get("payload")
+            if tag is None:
+                raise Unsupported(e, f"use of {e.id} itself in the {self.ctor['ctor']} case (no payload)")
+            return cname(e.id), tag
+        return super().e_Name(e, env)
+
+    def e_Attribute(self, e, env):
+        d = self.cfg["dispatch"]
+        if isinstance(e.value, ast.Name) and e.value.id == d["arg"]:
+            at = self.ctor.get("attrs", {})
+            if e.attr in at:
+                return cname(f"{d['arg']}_{e.attr}"), at[e.attr]
+            raise Unsupported(e, f"attribute .{e.attr} in the {self.ctor['ctor']} case")
+        return super().e_Attribute(e, env)
+
+    def e_Call(self, e, env):
+        d = self.cfg["dispatch"]
+        name = self.dotted(e.func)
+        args = e.args
+        selfargs = " ".join(cname(a) for a in self.cfg.get("self_attrs", {}))
+        me = "self." + self.fdef.name
+        if e.keywords:
+            raise Unsupported(e, "keyword arguments in call")
+        if name == me and len(args) == 1:
+            t, ty = self.expr(args[0], env)
+            if ty != "pyval":
+                raise Unsupported(e, f"recursive call on type {ty}")
+            return f"({cname(self.fdef.name)} {selfargs} {t})", "str"
+        if name == "str" and len(args) == 1:
+            t, ty = self.expr(args[0], env)
+            fn = {"Z": "py_str_int", "float": "py_str_float", "other": "py_str_other"}.get(ty)
+            if fn is None:
+                raise Unsupported(e, f"str() of type {ty}")
+            return f"({fn} {t})", "str"
+        if name == "math.isnan" and len(args) == 1:
+            t, ty = self.expr(args[0], env)
+            if ty != "float":
+                raise Unsupported(e, f"math.isnan of type {ty}")
+            return f"(py_isnan {t})", "bool"
+        if name in self.cfg.get("self_methods", {}) and len(args) == 1:
+            cn, aty, extra = self.cfg["self_methods"][name]
+            t, ty = self.expr(args[0], env)
+            if ty != aty:
+                raise Unsupported(e, f"{name} on type {ty}")
+            return f"({cn} {extra} {t})", "str"
+        # "<sep>".join([self.f(x) for x in <list>])
+        if isinstance(e.func, ast.Attribute) and e.func.attr == "join" and isinstance(e.func.value, ast.Constant) \
+                and isinstance(e.func.value.value, str) and len(args) == 1 and isinstance(args[0], (ast.ListComp, ast.GeneratorExp)):
+            g = args[0]
+            if len(g.generators) != 1 or g.generators[0].ifs or g.generators[0].is_async or not isinstance(g.generators[0].target, ast.Name):
+                raise Unsupported(e, "join over a comprehension with filters / several generators")
+            it, ity = self.expr(g.generators[0].iter, env)
+            if ity != "pylist":
+                raise Unsupported(e, f"join over iteration of type {ity}")
+            x = g.generators[0].target.id
+            el = g.elt
+            if not (isinstance(el, ast.Call) and self.dotted(el.func) == me and len(el.args) == 1 and not el.keywords
+                    and isinstance(el.args[0], ast.Name) and el.args[0].id == x):
+                raise Unsupported(e, "join element is not the recursive call on the loop variable")
+            return f"(str_join {coq_string(e.func.value.value)} (map ({cname(self.fdef.name)} {selfargs}) {it}))", "str"
+        raise Unsupported(e, f"call of {name} in a dispatch function")
+
+    def translate(self):
+        f = self.fdef
+        d = self.cfg["dispatch"]
+        a = f.args
+        names = [x.arg for x in a.args]
+        if a.posonlyargs or a.kwonlyargs or a.vararg or a.kwarg or names != ["self", d["arg"]]:
+            raise Unsupported(f, "dispatch function must be (self, <arg>)")
+        params = [f"({cname(an)} : {cty})" for an, (cty, tag) in self.cfg.get("self_attrs", {}).items()]
+        arms = []
+        for c in d["ctors"]:
+            self.ctor = c
+            binds = []
+            if c.get("payload") is not None:
+                binds.append(cname(d["arg"]))
+            for at in c.get("attrs", {}):
+                binds.append(cname(f"{d['arg']}_{at}"))
+
+            def final(_env):
+                raise Unsupported(f, f"control can fall off the end in the {c['ctor']} case")
+            body = self.block(f.body, {}, final)
+            arms.append(f"  | {' '.join([c['ctor']] + binds)} => {body}")
+        return (f"Fixpoint {cname(f.name)} {' '.join(params)} ({cname(d['arg'])} : {d['type']}) {{struct {cname(d['arg'])}}} : string :=\n"
+                f"  match {cname(d['arg'])} with\n" + "\n".join(arms) + "\n  end.")
+
+
 class Module:
     def __init__(self, src_path, cfg):
         self.cfg = cfg
@@ -826,7 +964,7 @@ def generate(target, repo="/repo"):
             import copy
             fdef = copy.copy(fdef)
             fdef.name = item["rename"]
-        fn = Fn(mod, fdef, item, cls)
+        fn = (DispatchFn if item.get("dispatch") else Fn)(mod, fdef, item, cls)
         if name == "__init__":
             # `self` is created by the constructor; the first assignment of every field initialises it
             d = fn.translate()
